@@ -180,6 +180,14 @@ def run(ctx):
                 "relays: one case = one message through the real HandleMessage (+ responder) against scripted "
                 "destinations (HTTP status 200..599, stall, refused connection; nsqd OK / E_PUB_FAILED / dropped "
                 "connection / refused connection) in every mode, GET and POST, sampling 1.0/0.5/0.0, JSON filters")
+    # committed replay files of the known findings that are not to_nsq `.ops` streams: exported to the harnesses
+    # (vfKnownLines in harness/common); a file that no harness reads is a broken tie (audit round 7, C36)
+    known_txt = [k for k in ctx.known_findings().get("fixed", []) + ctx.known_findings().get("open", [])
+                 if k.get("property") == "C20" and k.get("replay") and not k["replay"].endswith(".ops")]
+    seen_dir = os.path.join(ctx.work, "known_seen")
+    os.environ["VF_KNOWN_SEEN"] = seen_dir
+    for k in known_txt:
+        os.environ["VF_KNOWN_" + re.sub(r"[^A-Za-z0-9]", "_", k["key"]).upper()] = os.path.join(fw.ROOT, k["replay"])
     gen_ok, _ = ctx.gen("e8_relay")
     ctx.gen(c20_opts.SPEC)
     c20_opts.declare(ctx)
@@ -213,7 +221,7 @@ def run(ctx):
     else:
         # known findings are replayed, not remembered: fixed ones must pass
         for k in ctx.known_findings().get("fixed", []) + ctx.known_findings().get("open", []):
-            if k.get("property") != "C20" or not k.get("replay"):
+            if k.get("property") != "C20" or not k.get("replay") or not k["replay"].endswith(".ops"):
                 continue
             res, log = run_tonsq(ctx, b_tonsq, "known", os.path.join(fw.ROOT, k["replay"]))
             if res is None:
@@ -261,6 +269,10 @@ def run(ctx):
         if b:
             giveup(ctx, b, corr_broken)
         c20_audit7.n2h_get(ctx, corr_broken)   # audit7-b: GET request target (own harness binary)
+    if not ctx.replay_in:
+        for k in known_txt:
+            if not os.path.exists(os.path.join(seen_dir, k["key"])):
+                corr_broken.append("replay file %s of known finding %s is read by no harness" % (k["replay"], k["key"]))
     if (ctx.broken_ties or corr_broken) and not ctx.violations:
         ctx.broken_without_input(ctx.broken_ties + corr_broken,
                                  "search: %d generated inputs / messages through the real tools found no property failure"
